@@ -568,15 +568,16 @@ func (p *player) waitFor(bound time.Duration, what string, cond func() bool) boo
 	}
 }
 
-func (p *player) quiesce(idle, bound time.Duration) {
+func (p *player) quiesce(idle, bound time.Duration) bool {
 	dl := time.Now().Add(bound)
 	for time.Now().Before(dl) {
 		last := time.Unix(0, atomic.LoadInt64(&p.lastAct))
 		if time.Since(last) > idle {
-			return
+			return true
 		}
 		time.Sleep(2 * time.Millisecond)
 	}
+	return false
 }
 
 func freePort(network string) string {
